@@ -341,7 +341,7 @@ def run(check):
     rnd = random.Random(check.seed)
 
     # (V) seeded random scenarios: start the real-code runs first, ask TLC meanwhile
-    n_random = 1500 if check.quick else 6000
+    n_random = 700 if check.quick else 6000
     scenarios = [S.make_scenario(rnd, i) for i in range(n_random)]
     ctx = multiprocessing.get_context("fork")
     procs = 16
@@ -352,7 +352,7 @@ def run(check):
     try:
         pending = [pool.map_async(_work, cut(scenarios))]
         # (R) scenario structures from TLC behaviours
-        derived = tlc_scenarios(check, 120 if check.quick else 600, 45)
+        derived = tlc_scenarios(check, 80 if check.quick else 600, 45)
         for k, sc in enumerate(derived):
             sc["id"] = n_random + k
         check.cov["tlc_behaviours_replayed"] = len(derived)
